@@ -225,6 +225,46 @@ TABLE = {
             "checked for symmetry on all 101 derived pairs (are_comparable consults only its first operand); both operands "
             "must be normalised by the same expressions.",
             "Exactness of Decimal/pint conversion and trichotomy on values are not decided. '%' vs vol%/wt%/mol% is asymmetric today (open known findings)."),
+    "C20": ("two-sided table agreement: published names vs parser tables, regex-language inclusion (search vs match automata) of analyzer-side "
+            "and run-time validators, abstract-case path exploration of the unit checks",
+            "The analysis side and the run-time side are separate code; each failure kind of the property is reduced to an agreement "
+            "that holds for every method: published command names are parser instruction names, the analyzer's accepted argument "
+            "language is included in the run-time's per command (decided on automata built from the constant-evaluated patterns and "
+            "the re function each side applies), every abstract unit case the run-time rejects ends in an analyzer ERROR on all paths, "
+            "every run-time tag lookup by a method-supplied name has an analyzer test, the tag collections agree, and compound "
+            "percentage units are commensurable.",
+            "Decides the agreements listed; pint arithmetic beyond the stated grammar fact, uod-specific parse functions and macro "
+            "errors are not decided. Base (static unit list vs uod-registered units) and 'mol%' are open known findings."),
+    "C22": ("partial evaluation of the pattern builders + regex-AST automata: language equivalence against the documented language",
+            "RegexNumber / RegexCategorical are evaluated symbolically (placeholder symbols for unit / option lists), the resulting "
+            "templates are compiled to automata and compared with the documented language for all instantiation shapes "
+            "(a shortest counterexample word is produced); interpolated lists must pass through re.escape; the markers the reader "
+            "methods search for must occur in the writer templates; no split on an escapable character after unescape.",
+            "Decides the template languages over an abstract alphabet; concrete option/unit strings are represented by one symbol "
+            "each. The categorical template accepts an empty value and leading/doubled '+' today (open known findings)."),
+    "C27": ("single-writer + guard check of sequence numbers, exhaustiveness of the state dispatch over the RecoverState literal, "
+            "kill/must-pass-through rules on the buffer",
+            "sequence_number has one writer guarded by == -1 on an increasing counter and both send paths call it; _post_async "
+            "handles every RecoverState literal (posted, buffered or justified); the failed-send handler buffers on every path; "
+            "the transition to Reconnected is reachable only with an empty buffer and buffered messages leave the buffer only on the "
+            "path that posts each of them.",
+            "Delivery order and duplication under all task interleavings (asyncio.gather ordering) are schedule properties and are "
+            "not decided."),
+    "C39": ("writer-agreement rules over every csv.writer call + value-independence of the omission predicate over the Tag hierarchy",
+            "All csv.writer calls of the archiver share one dialect bound to module constants with an escape character whenever "
+            "quoting is QUOTE_NONE; header and rows iterate the same tag sequence under the same omission predicate and every "
+            "archive() override returns None on all paths or on none; the mark separator is disjoint from the dialect's special "
+            "characters.",
+            "The byte-level behaviour of Python's csv module is trusted; read-back equality of values is not decided."),
+    "C40": ("lock-discipline (effect) analysis: cross-thread entry points discovered from the message handlers, shared-state "
+            "effects must be lexically under the engine lock, non-reentrancy check",
+            "Entry points are the Engine methods called from EngineMessageHandlers; every statement that touches the state "
+            "Engine.tick uses under its lock (interpreter, tracking, method manager, command manager, run-state flags) must lie "
+            "inside `with self._lock`; the tick's execute phase must be under the lock; no function reachable inside a locked region "
+            "re-acquires the non-reentrant lock. Covers every thread schedule because the rule is about lock coverage, not about "
+            "observed interleavings.",
+            "Does not model the GIL or asyncio scheduling; the queue hand-off (CommandManager.schedule) is trusted to be thread-safe. "
+            "Three unlocked entry points were repaired (fix: ff1ae728)."),
 }
 
 DESIGN_NA = {
